@@ -258,12 +258,12 @@ def frame (n : Nat) (R : Bytes) : Frame :=
       if ((R.drop (k + 1)).drop (m + 1)).length < n then .short (R.take k) ((R.drop (k + 1)).take m)
       else .entry (R.take k) ((R.drop (k + 1)).take m) (((R.drop (k + 1)).drop (m + 1)).take n) (k + 1 + m + 1 + n)
 
-/-- strict-mode check and integer parse of one mode token, as each side does it -/
-def pyTok (strict : Bool) (tok : Bytes) : Option Int :=
-  if strict ∧ tok.head? = some 48 then none else pyInt 8 tok
+/-- strict-mode check and mode parse of one token, as each side does it -/
+def pyTokG (modeFn : Bytes → Option Int) (strict : Bool) (tok : Bytes) : Option Int :=
+  if strict ∧ tok.head? = some 48 then none else modeFn tok
 
-def rsTok (strict : Bool) (tok : Bytes) : Option Int :=
-  match rsFromStrRadix 8 32 tok with
+def rsTokG (tokFn : Bytes → Option Nat) (strict : Bool) (tok : Bytes) : Option Int :=
+  match tokFn tok with
   | none => none
   | some v => if strict ∧ tok.head? = some 48 then none else some (Int.ofNat v)
 
@@ -288,24 +288,24 @@ theorem frame_entry_used {n : Nat} {R tok name sha : Bytes} {used : Nat}
           simp only [List.length_drop] at *
           omega
 
-theorem rsStep_frame (n : Nat) (strict : Bool) (R : Bytes) :
-    rsParseStep n strict R =
+theorem rsStepG_frame (modeOf : Bytes → Nat → Option Nat) (tokFn : Bytes → Option Nat)
+    (h0 : ∀ R, modeOf R 0 = none) (ht0 : tokFn [] = none)
+    (hmk : ∀ R k, k ≠ 0 → modeOf R k = tokFn (R.take k)) (n : Nat) (strict : Bool) (R : Bytes) :
+    rsParseStepG modeOf n strict R =
       match frame n R with
       | .done => .done
       | .noSpace => .fail .objectFormat
       | .noNul _ => .fail .objectFormat
       | .short _ _ => .fail .objectFormat
       | .entry tok name sha used =>
-        match rsTok strict tok with
+        match rsTokG tokFn strict tok with
         | none => .fail .objectFormat
         | some mode => .entry ⟨name, mode, hexlify sha⟩ (R.drop used) := by
   have e1 : Gen.rsModeTerm = 32 := rfl
   have e2 : Gen.rsNameTerm = 0 := rfl
   have e3 : Gen.rsStrictLead = 48 := rfl
-  have e4 : Gen.rsModeRadix = 8 := rfl
-  have e5 : Gen.rsModeBits = 32 := rfl
-  unfold rsParseStep frame
-  rw [e1, e2, e3, e4, e5]
+  unfold rsParseStepG frame
+  rw [e1, e2, e3]
   by_cases hR : R.isEmpty = true
   · simp [hR]
   · simp only [hR, Bool.false_eq_true, if_false]
@@ -325,23 +325,27 @@ theorem rsStep_frame (n : Nat) (strict : Bool) (R : Bytes) :
       cases hm : findByte 0 (R.drop (k + 1)) with
       | none =>
         simp only
-        cases rsFromStrRadix 8 32 (R.take k) with
+        cases modeOf R k with
         | none => rfl
         | some v => simp only; split <;> rfl
       | some m =>
         simp only
         by_cases hlen : ((R.drop (k + 1)).drop (m + 1)).length < n
         · simp only [hlen, if_true]
-          cases rsFromStrRadix 8 32 (R.take k) with
+          cases modeOf R k with
           | none => rfl
           | some v => simp only; split <;> rfl
-        · simp only [hlen, if_false, rsTok]
-          cases hv : rsFromStrRadix 8 32 (R.take k) with
-          | none => rfl
+        · simp only [hlen, if_false, rsTokG]
+          cases hv : modeOf R k with
+          | none =>
+            by_cases hk0 : k = 0
+            · subst hk0; simp [ht0]
+            · rw [← hmk R k hk0, hv]
           | some v =>
-            simp only
             have hk0 : k ≠ 0 := by
-              intro h0; subst h0; simp [rsFromStrRadix] at hv
+              intro hz; subst hz; rw [h0] at hv; cases hv
+            rw [← hmk R k hk0, hv]
+            simp only
             rw [hhead hk0]
             by_cases hs : strict = true ∧ R.head? = some 48
             · simp only [hs, and_self, if_true]
@@ -356,28 +360,27 @@ theorem hexlify_length : ∀ b : Bytes, (hexlify b).length = 2 * b.length := by
   | nil => rfl
   | cons c cs ih => simp only [hexlify, List.length_cons, ih]; omega
 
-theorem pyStep_frame (T : Bytes) (n : Nat) (hn : n = 20 ∨ n = 32) (strict : Bool) (count : Nat)
-    (hc : count ≤ T.length) :
-    pyParseStep T (some n) strict count =
+theorem pyStepG_frame (modeFn : Bytes → Option Int) (T : Bytes) (n : Nat) (hn : n = 20 ∨ n = 32)
+    (strict : Bool) (count : Nat) (hc : count ≤ T.length) :
+    pyParseStepG modeFn T (some n) strict count =
       match frame n (T.drop count) with
       | .done => .done
       | .noSpace => .fail .value
       | .noNul tok =>
-        (match pyTok strict tok with
+        (match pyTokG modeFn strict tok with
          | none => .fail .objectFormat
          | some _ => .fail .value)
       | .short _ _ => .fail .objectFormat
       | .entry tok name sha used =>
-        match pyTok strict tok with
+        match pyTokG modeFn strict tok with
         | none => .fail .objectFormat
         | some mode => .entry ⟨name, mode, hexlify sha⟩ (count + used) := by
   have e1 : Gen.pyModeTerm = 32 := rfl
   have e2 : Gen.pyNameTerm = 0 := rfl
   have e3 : Gen.pyStrictLead = 48 := rfl
-  have e4 : Gen.pyModeBase = 8 := rfl
   have e5 : Gen.pyHexLens = [40, 64] := rfl
-  unfold pyParseStep frame
-  rw [e1, e2, e3, e4, e5]
+  unfold pyParseStepG frame
+  rw [e1, e2, e3, e5]
   by_cases hlt : count < T.length
   · have hne : (T.drop count).isEmpty = false := by
       cases hd : T.drop count with
@@ -402,10 +405,10 @@ theorem pyStep_frame (T : Bytes) (n : Nat) (hn : n = 20 ∨ n = 32) (strict : Bo
       rw [hf0]
       cases hm : findByte 0 ((T.drop count).drop (k + 1)) with
       | none =>
-        simp only [Option.map_none, pyTok]
+        simp only [Option.map_none, pyTokG]
         by_cases hs : strict = true ∧ ((T.drop count).take k).head? = some 48
         · simp only [hs, and_self, if_true]
-        · simp only [hs, if_false]; cases pyInt 8 ((T.drop count).take k) <;> rfl
+        · simp only [hs, if_false]; cases modeFn ((T.drop count).take k) <;> rfl
       | some m =>
         obtain ⟨hmlt, _⟩ := findByte_spec 0 _ m hm
         simp only [List.length_drop] at hmlt
@@ -429,7 +432,7 @@ theorem pyStep_frame (T : Bytes) (n : Nat) (hn : n = 20 ∨ n = 32) (strict : Bo
           simp only [hshort, if_true, hgt]
           by_cases hs : strict = true ∧ ((T.drop count).take k).head? = some 48
           · simp only [hs, and_self, if_true]
-          · simp only [hs, if_false]; cases pyInt 8 ((T.drop count).take k) <;> rfl
+          · simp only [hs, if_false]; cases modeFn ((T.drop count).take k) <;> rfl
         · have hgt : ¬ (m + 1 + (k + count) + 1 + n > T.length) := by rw [hlen2] at hshort; omega
           have hsl : ((((T.drop count).drop (k + 1)).drop (m + 1)).take n).length = n := by
             rw [List.length_take]; omega
@@ -437,205 +440,178 @@ theorem pyStep_frame (T : Bytes) (n : Nat) (hn : n = 20 ∨ n = 32) (strict : Bo
             rw [hexlify_length, hsl]; rcases hn with rfl | rfl <;> simp
           have a3 : m + 1 + (k + count) + 1 + n = count + (k + 1 + m + 1 + n) := by omega
           have hgt' : ¬ (count + (k + 1 + m + 1 + n) > T.length) := by omega
-          simp only [hshort, if_false, hsl, ne_eq, not_true_eq_false, hhex, pyTok, a3, hgt']
+          simp only [hshort, if_false, hsl, ne_eq, not_true_eq_false, hhex, pyTokG, a3, hgt']
           by_cases hs : strict = true ∧ ((T.drop count).take k).head? = some 48
           · simp only [hs, and_self, if_true]
-          · simp only [hs, if_false]; cases pyInt 8 ((T.drop count).take k) <;> rfl
+          · simp only [hs, if_false]; cases modeFn ((T.drop count).take k) <;> rfl
   · have hnil : T.drop count = [] := by
       apply List.drop_eq_nil_of_le; omega
     simp [hlt, hnil]
 
-/-! ### tokens: Rust accepts ⊆ Python accepts, equal on canonical tokens -/
+/-! ### the repaired mode parsers agree on EVERY token -/
 
-theorem rsTok_pyTok {strict : Bool} {tok : Bytes} {v : Int} (h : rsTok strict tok = some v) :
-    pyTok strict tok = some v := by
-  simp only [rsTok] at h
-  split at h
-  · cases h
-  · rename_i w hw
-    split at h
-    · cases h
-    · rename_i hs
-      simp only [Option.some.injEq] at h
-      obtain ⟨ds, hd, ho, hv, _⟩ := rs_canonical hw
-      simp only [pyTok, hs, if_false, canonical_py hd ho, ← hv, h]
+/-- token-level view of the repaired Rust mode parse -/
+def rsModeTok (tok : Bytes) : Option Nat :=
+  if tok.head? = some 43 then none else rsFromStrRadix 8 32 tok
 
-theorem rsTok_canonical {strict : Bool} {tok : Bytes} {v : Int} (h : rsTok strict tok = some v) :
-    isCanonical tok = true := by
-  simp only [rsTok] at h
-  split at h
-  · cases h
-  · rename_i w hw
-    obtain ⟨ds, hd, ho, hv, hlt⟩ := rs_canonical hw
-    simp only [isCanonical, hd, ho, Bool.true_and, decide_eq_true_eq]
-    omega
+theorem rsModeOf_zero (R : Bytes) : rsModeOf R 0 = none := by
+  simp only [rsModeOf, List.take_zero, rsFromStrRadix]
+  split <;> rfl
 
-theorem tok_canonical_eq (strict : Bool) {tok : Bytes} (h : isCanonical tok = true) :
-    rsTok strict tok = pyTok strict tok := by
-  simp only [isCanonical] at h
-  split at h
-  · cases h
-  · rename_i ds hd
-    simp only [Bool.and_eq_true, decide_eq_true_eq] at h
-    simp only [rsTok, pyTok, canonical_rs hd h.1 h.2, canonical_py hd h.1]
+theorem rsModeOf_tok (R : Bytes) (k : Nat) (hk : k ≠ 0) : rsModeOf R k = rsModeTok (R.take k) := by
+  have e1 : Gen.rsRejectLead = 43 := rfl
+  have e2 : Gen.rsModeRadix = 8 := rfl
+  have e3 : Gen.rsModeBits = 32 := rfl
+  have hhead : (R.take k).head? = R.head? := by
+    cases R with
+    | nil => simp
+    | cons a as => cases k with
+      | zero => exact absurd rfl hk
+      | succ k => simp
+  simp only [rsModeOf, rsModeTok, e1, e2, e3, hhead]
 
-/-! ### the loops -/
+theorem rsModeOfOld_zero (R : Bytes) : rsModeOfOld R 0 = none := by
+  simp [rsModeOfOld, rsFromStrRadix]
 
-/-- the mode tokens met walking the text entry by entry (used in the statement of
-`parse_tree_equiv_partial`): up to the first space; skip the name up to NUL; skip the id -/
-def modeTokens (n : Nat) : Nat → Bytes → List Bytes
-  | 0, _ => []
-  | fuel + 1, R =>
-    match findByte 32 R with
-    | none => []
-    | some k =>
-      R.take k ::
-        (match findByte 0 (R.drop (k + 1)) with
-         | none => []
-         | some m => modeTokens n fuel ((R.drop (k + 1)).drop (m + 1 + n)))
+theorem pyModeRegex_iff (tok : Bytes) : pyModeRegex tok = true ↔ (tok ≠ [] ∧ tok.all isOct = true) := by
+  have e1 : Gen.pyModeReLo = 48 := rfl
+  have e2 : Gen.pyModeReHi = 55 := rfl
+  have hfun : (fun c : UInt8 => decide (Gen.pyModeReLo ≤ c.toNat) && decide (c.toNat ≤ Gen.pyModeReHi)) = isOct := by
+    funext c; simp only [isOct, e1, e2]
+  simp only [pyModeRegex, hfun, Bool.and_eq_true, Bool.not_eq_true', List.isEmpty_eq_false_iff]
 
-theorem modeTokens_entry {n : Nat} {R tok name sha : Bytes} {used : Nat} (fuel : Nat)
-    (h : frame n R = .entry tok name sha used) :
-    modeTokens n (fuel + 1) R = tok :: modeTokens n fuel (R.drop used) := by
-  unfold frame at h
-  split at h
-  · cases h
-  · split at h
-    · cases h
-    · rename_i k hk
-      split at h
-      · cases h
-      · rename_i m hm
-        split at h
-        · cases h
-        · simp only [Frame.entry.injEq] at h
-          obtain ⟨rfl, _, _, rfl⟩ := h
-          have e : k + 1 + (m + 1 + n) = k + 1 + m + 1 + n := by omega
-          simp only [modeTokens, hk, hm, List.drop_drop, e]
+theorem canonDigits_of_oct {tok : Bytes} (hne : tok ≠ []) (ho : tok.all isOct = true) : canonDigits tok = some tok := by
+  cases tok with
+  | nil => exact absurd rfl hne
+  | cons c r =>
+    have hc : isOct c = true := by simp only [List.all_cons, Bool.and_eq_true] at ho; exact ho.1
+    have : ¬ c.toNat = 43 := by
+      simp only [isOct, Bool.and_eq_true, decide_eq_true_eq] at hc; omega
+    simp [canonDigits, this]
 
-theorem rsLoop_refines_pyLoop (T : Bytes) (n : Nat) (hn : n = 20 ∨ n = 32) (strict : Bool) :
-    ∀ (fuel count : Nat) (r : List TreeEntry), count ≤ T.length →
-      rsParseLoop n strict fuel (T.drop count) = .ok r →
-      pyParseLoop T (some n) strict fuel count = .ok r := by
-  intro fuel
-  induction fuel with
-  | zero => intro count r _ h; simp [rsParseLoop] at h
-  | succ fuel ih =>
-    intro count r hc h
-    simp only [rsParseLoop, rsStep_frame] at h
-    simp only [pyParseLoop, pyStep_frame T n hn strict count hc]
-    cases hf : frame n (T.drop count) with
-    | done => simp only [hf] at h ⊢; exact h
-    | noSpace => simp [hf] at h
-    | noNul tok => simp [hf] at h
-    | short tok name => simp [hf] at h
-    | entry tok name sha used =>
-      simp only [hf] at h ⊢
-      obtain ⟨_, hused⟩ := frame_entry_used hf
-      simp only [List.length_drop] at hused
-      cases hrt : rsTok strict tok with
-      | none => simp [hrt] at h
-      | some mode =>
-        simp only [hrt, List.drop_drop] at h
-        simp only [rsTok_pyTok hrt]
-        cases hrec : rsParseLoop n strict fuel (T.drop (count + used)) with
-        | error e => simp [hrec] at h
-        | ok es =>
-          simp only [hrec] at h
-          rw [ih (count + used) es (by omega) hrec]
-          exact h
+/-- after the pattern check `int(tok, 8)` cannot fail and is the plain octal value -/
+theorem pyInt_of_regex {tok : Bytes} (h : pyModeRegex tok = true) : pyInt 8 tok = some (Int.ofNat (octFrom tok 0)) := by
+  obtain ⟨hne, ho⟩ := (pyModeRegex_iff tok).1 h
+  exact canonical_py (canonDigits_of_oct hne ho) ho
 
-theorem loops_obs_eq (T : Bytes) (n : Nat) (hn : n = 20 ∨ n = 32) (strict : Bool) :
+theorem mode_tok_eq (tok : Bytes) : (rsModeTok tok).map Int.ofNat = pyModeTok tok := by
+  have e1 : Gen.pyModeBase = 8 := rfl
+  have e2 : Gen.pyModeMax = 4294967295 := rfl
+  simp only [pyModeTok, e1, e2]
+  by_cases hre : pyModeRegex tok = true
+  · obtain ⟨hne, ho⟩ := (pyModeRegex_iff tok).1 hre
+    have hcd := canonDigits_of_oct hne ho
+    have hplus : ¬ tok.head? = some 43 := by
+      cases tok with
+      | nil => simp
+      | cons c r =>
+        have hc : isOct c = true := by simp only [List.all_cons, Bool.and_eq_true] at ho; exact ho.1
+        simp only [isOct, Bool.and_eq_true, decide_eq_true_eq] at hc
+        simp only [List.head?_cons, Option.some.injEq]
+        intro h; rw [h] at hc; simp at hc
+    simp only [hre, if_true, pyInt_of_regex hre, rsModeTok, hplus, if_false]
+    by_cases hbig : octFrom tok 0 < 2 ^ 32
+    · rw [canonical_rs hcd ho hbig]
+      have : ¬ (Int.ofNat (octFrom tok 0) > 4294967295) := by
+        show ¬ ((octFrom tok 0 : Nat) : Int) > 4294967295
+        omega
+      simp only [this, if_false, Option.map_some]
+    · have : (Int.ofNat (octFrom tok 0) > 4294967295) := by
+        show ((octFrom tok 0 : Nat) : Int) > 4294967295
+        omega
+      simp only [this, if_true]
+      cases hr : rsFromStrRadix 8 32 tok with
+      | none => rfl
+      | some v =>
+        obtain ⟨ds, hd, _, hv, hlt⟩ := rs_canonical hr
+        rw [hcd] at hd
+        simp only [Option.some.injEq] at hd
+        subst hd
+        omega
+  · simp only [hre, Bool.false_eq_true, if_false, rsModeTok]
+    split
+    · rfl
+    · rename_i hplus
+      cases hr : rsFromStrRadix 8 32 tok with
+      | none => rfl
+      | some v =>
+        exfalso
+        obtain ⟨ds, hd, ho, _, _⟩ := rs_canonical hr
+        -- no leading '+': the digit string is the token itself
+        have : ds = tok := by
+          cases tok with
+          | nil => simp [canonDigits] at hd
+          | cons c r =>
+            have hc : ¬ c.toNat = 43 := by
+              intro h
+              apply hplus
+              simp only [List.head?_cons, Option.some.injEq]
+              exact UInt8.toNat_inj.mp (by simpa using h)
+            simp only [canonDigits, hc, if_false, Option.some.injEq] at hd
+            exact hd.symm
+        subst this
+        apply hre
+        apply (pyModeRegex_iff _).2
+        refine ⟨?_, ho⟩
+        intro hnil; subst hnil; simp [canonDigits] at hd
+
+theorem tokG_agree (strict : Bool) (tok : Bytes) : rsTokG rsModeTok strict tok = pyTokG pyModeTok strict tok := by
+  simp only [rsTokG, pyTokG, ← mode_tok_eq tok]
+  cases rsModeTok tok with
+  | none => simp
+  | some v => simp only [Option.map_some]
+
+/-! ### the loops: equal observable results whenever the two token functions agree -/
+
+theorem loopsG_obs_eq (modeFn : Bytes → Option Int) (modeOf : Bytes → Nat → Option Nat) (tokFn : Bytes → Option Nat)
+    (h0 : ∀ R, modeOf R 0 = none) (ht0 : tokFn [] = none) (hmk : ∀ R k, k ≠ 0 → modeOf R k = tokFn (R.take k))
+    (hagree : ∀ strict tok, rsTokG tokFn strict tok = pyTokG modeFn strict tok)
+    (T : Bytes) (n : Nat) (hn : n = 20 ∨ n = 32) (strict : Bool) :
     ∀ (fuel count : Nat), count ≤ T.length →
-      (∀ t ∈ modeTokens n fuel (T.drop count), isCanonical t = true) →
-      obs (rsParseLoop n strict fuel (T.drop count)) = obs (pyParseLoop T (some n) strict fuel count) := by
+      obs (rsParseLoopG modeOf n strict fuel (T.drop count)) = obs (pyParseLoopG modeFn T (some n) strict fuel count) := by
   intro fuel
   induction fuel with
-  | zero => intro count _ _; rfl
+  | zero => intro count _; rfl
   | succ fuel ih =>
-    intro count hc htoks
-    simp only [rsParseLoop, rsStep_frame, pyParseLoop, pyStep_frame T n hn strict count hc]
+    intro count hc
+    simp only [rsParseLoopG, rsStepG_frame modeOf tokFn h0 ht0 hmk, pyParseLoopG, pyStepG_frame modeFn T n hn strict count hc]
     cases hf : frame n (T.drop count) with
     | done => rfl
     | noSpace => rfl
-    | noNul tok => simp only; cases pyTok strict tok <;> rfl
+    | noNul tok => simp only; cases pyTokG modeFn strict tok <;> rfl
     | short tok name => rfl
     | entry tok name sha used =>
       simp only
       obtain ⟨_, hused⟩ := frame_entry_used hf
       simp only [List.length_drop] at hused
-      rw [modeTokens_entry fuel hf] at htoks
-      have hcan : isCanonical tok = true := htoks tok (by simp)
-      rw [tok_canonical_eq strict hcan]
-      cases pyTok strict tok with
+      rw [hagree strict tok]
+      cases pyTokG modeFn strict tok with
       | none => rfl
       | some mode =>
         simp only [List.drop_drop]
-        have := ih (count + used) (by omega) (by
-          intro t ht
-          apply htoks t
-          simp only [List.drop_drop] at ht ⊢
-          exact List.mem_cons_of_mem _ ht)
-        cases h1 : rsParseLoop n strict fuel (T.drop (count + used)) with
+        have := ih (count + used) (by omega)
+        cases h1 : rsParseLoopG modeOf n strict fuel (T.drop (count + used)) with
         | error e =>
-          cases h2 : pyParseLoop T (some n) strict fuel (count + used) with
+          cases h2 : pyParseLoopG modeFn T (some n) strict fuel (count + used) with
           | error e2 => rfl
           | ok es2 => simp [h1, h2, obs] at this
         | ok es =>
-          cases h2 : pyParseLoop T (some n) strict fuel (count + used) with
+          cases h2 : pyParseLoopG modeFn T (some n) strict fuel (count + used) with
           | error e2 => simp [h1, h2, obs] at this
           | ok es2 =>
             simp only [h1, h2, obs, Option.some.injEq] at this
             simp [obs, this]
 
-theorem rsLoop_ok_tokens (n : Nat) (strict : Bool) : ∀ (fuel : Nat) (R : Bytes) (r : List TreeEntry),
-    rsParseLoop n strict fuel R = .ok r → ∀ t ∈ modeTokens n fuel R, isCanonical t = true := by
-  intro fuel
-  induction fuel with
-  | zero => intro R r h; simp [rsParseLoop] at h
-  | succ fuel ih =>
-    intro R r h
-    simp only [rsParseLoop, rsStep_frame] at h
-    cases hf : frame n R with
-    | done =>
-      have hR : R = [] := by
-        unfold frame at hf
-        split at hf
-        · rename_i he; exact List.isEmpty_iff.mp he
-        · split at hf
-          · cases hf
-          · split at hf
-            · cases hf
-            · split at hf <;> cases hf
-      subst hR
-      intro t ht
-      simp [modeTokens, findByte] at ht
-    | noSpace => simp [hf] at h
-    | noNul tok => simp [hf] at h
-    | short tok name => simp [hf] at h
-    | entry tok name sha used =>
-      simp only [hf] at h
-      rw [modeTokens_entry fuel hf]
-      cases hrt : rsTok strict tok with
-      | none => simp [hrt] at h
-      | some mode =>
-        simp only [hrt] at h
-        cases hrec : rsParseLoop n strict fuel (R.drop used) with
-        | error e => simp [hrec] at h
-        | ok es =>
-          intro t ht
-          rcases List.mem_cons.mp ht with rfl | ht
-          · exact rsTok_canonical hrt
-          · exact ih _ es hrec t ht
-
-theorem rsLoop_fuel (n : Nat) (strict : Bool) : ∀ (fuel : Nat) (R : Bytes), R.length < fuel →
-    rsParseLoop n strict fuel R ≠ .error .fuel := by
+theorem rsLoopG_fuel (modeOf : Bytes → Nat → Option Nat) (tokFn : Bytes → Option Nat)
+    (h0 : ∀ R, modeOf R 0 = none) (ht0 : tokFn [] = none) (hmk : ∀ R k, k ≠ 0 → modeOf R k = tokFn (R.take k))
+    (n : Nat) (strict : Bool) : ∀ (fuel : Nat) (R : Bytes), R.length < fuel →
+    rsParseLoopG modeOf n strict fuel R ≠ .error .fuel := by
   intro fuel
   induction fuel with
   | zero => intro R h; omega
   | succ fuel ih =>
     intro R hlen
-    simp only [rsParseLoop, rsStep_frame]
+    simp only [rsParseLoopG, rsStepG_frame modeOf tokFn h0 ht0 hmk]
     cases hf : frame n R with
     | done => simp
     | noSpace => simp
@@ -644,41 +620,42 @@ theorem rsLoop_fuel (n : Nat) (strict : Bool) : ∀ (fuel : Nat) (R : Bytes), R.
     | entry tok name sha used =>
       simp only
       obtain ⟨h2, hused⟩ := frame_entry_used hf
-      cases rsTok strict tok with
+      cases rsTokG tokFn strict tok with
       | none => simp
       | some mode =>
         simp only
         have := ih (R.drop used) (by simp only [List.length_drop]; omega)
-        cases h1 : rsParseLoop n strict fuel (R.drop used) with
+        cases h1 : rsParseLoopG modeOf n strict fuel (R.drop used) with
         | error e => simp only [ne_eq, Except.error.injEq]; intro he; exact this (by rw [h1, he])
         | ok es => simp
 
-theorem pyLoop_fuel (T : Bytes) (n : Nat) (hn : n = 20 ∨ n = 32) (strict : Bool) :
+theorem pyLoopG_fuel (modeFn : Bytes → Option Int) (T : Bytes) (n : Nat) (hn : n = 20 ∨ n = 32) (strict : Bool) :
     ∀ (fuel count : Nat), count ≤ T.length → T.length - count < fuel →
-      pyParseLoop T (some n) strict fuel count ≠ .error .fuel := by
+      pyParseLoopG modeFn T (some n) strict fuel count ≠ .error .fuel := by
   intro fuel
   induction fuel with
   | zero => intro count _ h; omega
   | succ fuel ih =>
     intro count hc hlen
-    simp only [pyParseLoop, pyStep_frame T n hn strict count hc]
+    simp only [pyParseLoopG, pyStepG_frame modeFn T n hn strict count hc]
     cases hf : frame n (T.drop count) with
     | done => simp
     | noSpace => simp
-    | noNul tok => simp only; cases pyTok strict tok <;> simp
+    | noNul tok => simp only; cases pyTokG modeFn strict tok <;> simp
     | short tok name => simp
     | entry tok name sha used =>
       simp only
       obtain ⟨h2, hused⟩ := frame_entry_used hf
       simp only [List.length_drop] at hused
-      cases pyTok strict tok with
+      cases pyTokG modeFn strict tok with
       | none => simp
       | some mode =>
         simp only
         have := ih (count + used) (by omega) (by omega)
-        cases h1 : pyParseLoop T (some n) strict fuel (count + used) with
+        cases h1 : pyParseLoopG modeFn T (some n) strict fuel (count + used) with
         | error e => simp only [ne_eq, Except.error.injEq]; intro he; exact this (by rw [h1, he])
         | ok es => simp
+
 
 /-! ## byte-string order -/
 
@@ -705,71 +682,53 @@ theorem cmpBytes_swap : ∀ a b : Bytes, cmpBytes b a = (cmpBytes a b).swap := b
         · simp [h1, h2]
         · simp [h1, h2, ih ys]
 
-/-! ## tree order: `cmp_with_suffix` against the `/`-suffixed key -/
 
-/-- the name contains neither NUL nor `/` -/
-def nameOk (name : Bytes) : Prop := ∀ c ∈ name, c.toNat ≠ 0 ∧ c.toNat ≠ 47
+theorem cmpBytes_append : ∀ (p p' u v : Bytes), p.length = p'.length →
+    cmpBytes (p ++ u) (p' ++ v) = (if cmpBytes p p' = .eq then cmpBytes u v else cmpBytes p p') := by
+  intro p
+  induction p with
+  | nil =>
+    intro p' u v h
+    cases p' with
+    | nil => simp [cmpBytes]
+    | cons y ys => simp at h
+  | cons x xs ih =>
+    intro p' u v h
+    cases p' with
+    | nil => simp at h
+    | cons y ys =>
+      simp only [List.length_cons, Nat.add_right_cancel_iff] at h
+      simp only [List.cons_append, cmpBytes]
+      by_cases h1 : x.toNat < y.toNat
+      · simp [h1]
+      · by_cases h2 : y.toNat < x.toNat
+        · simp [h1, h2]
+        · simp only [h1, h2, if_false]
+          exact ih ys u v h
+
+/-! ## tree order: `cmp_with_suffix` against the `/`-suffixed key -/
 
 /-- Python's sort key for a name, given whether the mode is a directory -/
 def pyKeyOf (dir : Bool) (name : Bytes) : Bytes := if dir then name ++ [47] else name
 
-theorem rsCmp_cons_cons (ma mb : Nat) (x y : UInt8) (xs ys : Bytes) :
-    rsCmpWithSuffix (ma, x :: xs) (mb, y :: ys) =
-      if x.toNat < y.toNat then .lt else if y.toNat < x.toNat then .gt
-      else rsCmpWithSuffix (ma, xs) (mb, ys) := by
-  simp only [rsCmpWithSuffix, List.length_cons, Nat.succ_min_succ, List.take_succ_cons, cmpBytes,
-    List.getElem?_cons_succ]
-  by_cases h1 : x.toNat < y.toNat
-  · simp [h1]
-  · by_cases h2 : y.toNat < x.toNat
-    · simp [h1, h2]
-    · simp only [h1, h2, if_false]
-
-theorem cmp_suffix_eq : ∀ (xs ys : Bytes) (ma mb : Nat), nameOk xs → nameOk ys →
-    rsCmpWithSuffix (ma, xs) (mb, ys) = cmpBytes (pyKeyOf (rsObjIsDir ma) xs) (pyKeyOf (rsObjIsDir mb) ys) := by
+theorem pyKeyOf_eq (mode : Nat) (name : Bytes) : pyKeyOf (rsObjIsDir mode) name = name ++ rsSuffix mode := by
   have e1 : Gen.rsDirSuffix = 47 := rfl
-  have e2 : Gen.rsNoSuffix = 0 := rfl
-  intro xs
-  induction xs with
-  | nil =>
-    intro ys ma mb _ hy
-    cases ys with
-    | nil =>
-      simp only [rsCmpWithSuffix, e1, e2, pyKeyOf]
-      cases rsObjIsDir ma <;> cases rsObjIsDir mb <;> decide
-    | cons y ys =>
-      have hy0 := hy y (by simp)
-      have t47 : (47 : UInt8).toNat = 47 := rfl
-      have t0 : (0 : UInt8).toNat = 0 := rfl
-      simp only [rsCmpWithSuffix, e1, e2, pyKeyOf]
-      by_cases h1 : 47 < y.toNat
-      · have h2 : ¬ y.toNat < 47 := by omega
-        have h3 : 0 < y.toNat := by omega
-        cases rsObjIsDir ma <;> cases rsObjIsDir mb <;> simp [cmpBytes, cmpU8, h1, h2, h3, t47, t0]
-      · have h2 : y.toNat < 47 := by omega
-        have h3 : 0 < y.toNat := by omega
-        cases rsObjIsDir ma <;> cases rsObjIsDir mb <;> simp [cmpBytes, cmpU8, h1, h2, h3, t47, t0]
-  | cons x xs ih =>
-    intro ys ma mb hx hy
-    have hx0 := hx x (by simp)
-    have hxs : nameOk xs := fun c hc => hx c (by simp [hc])
-    cases ys with
-    | nil =>
-      have t47 : (47 : UInt8).toNat = 47 := rfl
-      have t0 : (0 : UInt8).toNat = 0 := rfl
-      simp only [rsCmpWithSuffix, e1, e2, pyKeyOf]
-      by_cases h1 : 47 < x.toNat
-      · have h2 : ¬ x.toNat < 47 := by omega
-        have h3 : 0 < x.toNat := by omega
-        cases rsObjIsDir ma <;> cases rsObjIsDir mb <;> simp [cmpBytes, cmpU8, h1, h2, h3, t47, t0]
-      · have h2 : x.toNat < 47 := by omega
-        have h3 : 0 < x.toNat := by omega
-        cases rsObjIsDir ma <;> cases rsObjIsDir mb <;> simp [cmpBytes, cmpU8, h1, h2, h3, t47, t0]
-    | cons y ys =>
-      have hys : nameOk ys := fun c hc => hy c (by simp [hc])
-      rw [rsCmp_cons_cons, ih ys ma mb hxs hys]
-      simp only [pyKeyOf]
-      cases rsObjIsDir ma <;> cases rsObjIsDir mb <;> simp [cmpBytes]
+  simp only [pyKeyOf, rsSuffix, e1]
+  split <;> simp
+
+/-- the repaired comparator is the byte order of the keys, for ALL names -/
+theorem cmp_suffix_eq (xs ys : Bytes) (ma mb : Nat) :
+    rsCmpWithSuffix (ma, xs) (mb, ys) = cmpBytes (pyKeyOf (rsObjIsDir ma) xs) (pyKeyOf (rsObjIsDir mb) ys) := by
+  rw [pyKeyOf_eq, pyKeyOf_eq]
+  simp only [rsCmpWithSuffix]
+  have key := cmpBytes_append (xs.take (min xs.length ys.length)) (ys.take (min xs.length ys.length))
+    (xs.drop (min xs.length ys.length) ++ rsSuffix ma) (ys.drop (min xs.length ys.length) ++ rsSuffix mb)
+    (by simp only [List.length_take]; omega)
+  rw [← List.append_assoc, ← List.append_assoc, List.take_append_drop, List.take_append_drop] at key
+  rw [key]
+  by_cases hc : cmpBytes (xs.take (min xs.length ys.length)) (ys.take (min xs.length ys.length)) = .eq
+  · simp [hc]
+  · simp [hc]
 
 /-! ## stable sort: congruence and commutation with `map` -/
 
@@ -855,6 +814,31 @@ theorem mem_stableSort {α : Type} (lt : α → α → Bool) (l : List α) (z : 
   · exact h
   · simp at h
 
+
+theorem mem_foldl_insertRev_of {α : Type} (lt : α → α → Bool) (z : α) : ∀ (l rev : List α),
+    (z ∈ l ∨ z ∈ rev) → z ∈ l.foldl (fun r x => insertRev lt x r) rev := by
+  intro l
+  induction l with
+  | nil =>
+    intro rev h
+    rcases h with h | h
+    · simp at h
+    · exact h
+  | cons x xs ih =>
+    intro rev h
+    simp only [List.foldl_cons]
+    apply ih
+    rcases h with h | h
+    · rcases List.mem_cons.mp h with rfl | h
+      · exact Or.inr ((mem_insertRev lt z z rev).2 (Or.inl rfl))
+      · exact Or.inl h
+    · exact Or.inr ((mem_insertRev lt x z rev).2 (Or.inr h))
+
+theorem mem_stableSort_of {α : Type} (lt : α → α → Bool) (l : List α) (z : α) (h : z ∈ l) : z ∈ stableSort lt l := by
+  unfold stableSort
+  rw [List.mem_reverse]
+  exact mem_foldl_insertRev_of lt z l [] (Or.inl h)
+
 /-! ## sorted_tree_items -/
 
 /-- every mode fits the 32-bit unsigned type both sides convert to -/
@@ -871,6 +855,24 @@ theorem rsExtractAll_ok : ∀ es : List TreeEntry, modesU32 es → rsExtractAll 
     have he := h e (by simp)
     have : ¬ (e.mode < 0 ∨ e.mode ≥ 2 ^ 32) := by omega
     simp only [rsExtractAll, this, if_false, ih (fun x hx => h x (by simp [hx])), List.map_cons, toTriple]
+
+theorem rsExtractAll_err : ∀ es : List TreeEntry, ¬ modesU32 es → rsExtractAll 32 es = .error .type := by
+  intro es
+  induction es with
+  | nil => intro h; exact absurd (fun e he => by simp at he) h
+  | cons e es ih =>
+    intro h
+    simp only [rsExtractAll]
+    by_cases he : e.mode < 0 ∨ e.mode ≥ 2 ^ 32
+    · rw [if_pos he]
+    · have hrest : ¬ modesU32 es := by
+        intro hm
+        apply h
+        intro x hx
+        rcases List.mem_cons.mp hx with rfl | hx
+        · omega
+        · exact hm x hx
+      simp only [he, if_false, ih hrest]
 
 theorem pyIsDir_ok {m : Int} (h : 0 ≤ m ∧ m < 2 ^ 32) : pyIsDir m = .ok (rsObjIsDir m.toNat) := by
   have e1 : Gen.pyModeTBits = 32 := rfl
@@ -891,6 +893,27 @@ theorem pyKeyAll_ok : ∀ es : List TreeEntry, modesU32 es → pyKeyAll es = .ok
     simp only [pyKeyAll, pyKeyEntry, pyIsDir_ok (h e (by simp)), ih (fun x hx => h x (by simp [hx])),
       List.map_cons, keyed, pyKeyOf, e1]
 
+theorem pyKeyAll_err : ∀ es : List TreeEntry, ¬ modesU32 es → pyKeyAll es = .error .overflow := by
+  have e1 : Gen.pyModeTBits = 32 := rfl
+  intro es
+  induction es with
+  | nil => intro h; exact absurd (fun e he => by simp at he) h
+  | cons e es ih =>
+    intro h
+    simp only [pyKeyAll, pyKeyEntry]
+    by_cases he : e.mode < 0 ∨ e.mode ≥ 2 ^ 32
+    · simp only [pyIsDir, e1]
+      rw [if_pos he]
+    · have hrest : ¬ modesU32 es := by
+        intro hm
+        apply h
+        intro x hx
+        rcases List.mem_cons.mp hx with rfl | hx
+        · omega
+        · exact hm x hx
+      have hok : 0 ≤ e.mode ∧ e.mode < 2 ^ 32 := by omega
+      simp only [pyIsDir_ok hok, ih hrest]
+
 theorem back_toTriple {e : TreeEntry} (h : 0 ≤ e.mode) :
     (⟨(toTriple e).1, Int.ofNat (toTriple e).2.1, (toTriple e).2.2⟩ : TreeEntry) = e := by
   cases e with
@@ -900,11 +923,11 @@ theorem back_toTriple {e : TreeEntry} (h : 0 ≤ e.mode) :
     show ((mode.toNat : Nat) : Int) = mode
     omega
 
-theorem sorted_eq (es : List TreeEntry) (nameOrder : Bool) (hm : modesU32 es)
-    (hn : nameOrder = false → ∀ e ∈ es, nameOk e.name) :
-    sortedTreeItemsRs es nameOrder = sortedTreeItemsPy es nameOrder := by
+/-- with 32-bit modes the Rust sort is the pre-repair Python sort (which has no range check) -/
+theorem sorted_eq_old (es : List TreeEntry) (nameOrder : Bool) (hm : modesU32 es) :
+    sortedTreeItemsRs es nameOrder = sortedTreeItemsPyOld es nameOrder := by
   have e1 : Gen.rsSortModeBits = 32 := rfl
-  simp only [sortedTreeItemsRs, sortedTreeItemsPy, e1, rsExtractAll_ok es hm]
+  simp only [sortedTreeItemsRs, sortedTreeItemsRsG, sortedTreeItemsPyOld, e1, rsExtractAll_ok es hm]
   cases nameOrder with
   | true =>
     simp only [if_true]
@@ -917,12 +940,10 @@ theorem sorted_eq (es : List TreeEntry) (nameOrder : Bool) (hm : modesU32 es)
     exact back_toTriple (hm e (mem_stableSort _ _ _ he)).1
   | false =>
     simp only [Bool.false_eq_true, if_false, pyKeyAll_ok es hm]
-    have hn' := hn rfl
-    -- both are the stable sort of `es` by the `/`-suffixed key
     rw [stableSort_map toTriple (fun a b => bytesLt (keyed a).1 (keyed b).1) _ es (by
       intro a ha b hb
       simp only [toTriple, keyed, bytesLt]
-      rw [cmp_suffix_eq _ _ _ _ (hn' a ha) (hn' b hb)])]
+      rw [cmp_suffix_eq])]
     rw [stableSort_map keyed (fun a b => bytesLt (keyed a).1 (keyed b).1) _ es (fun a _ b _ => rfl)]
     simp only [List.map_map]
     congr 1
@@ -931,9 +952,84 @@ theorem sorted_eq (es : List TreeEntry) (nameOrder : Bool) (hm : modesU32 es)
     simp only [Function.comp, keyed]
     exact back_toTriple (hm e (mem_stableSort _ _ _ he)).1
 
+theorem inRange_iff (e : TreeEntry) : pyModeInRange e = true ↔ (0 ≤ e.mode ∧ e.mode < 2 ^ 32) := by
+  have e1 : Gen.pySortModeMax = 4294967295 := rfl
+  simp only [pyModeInRange, e1, Bool.and_eq_true, decide_eq_true_eq]
+  omega
+
+/-- the repaired Python function returns only lists whose modes are all 32-bit -/
+theorem sortedPy_ok_modes {es L : List TreeEntry} {no : Bool} (h : sortedTreeItemsPy es no = .ok L) : modesU32 L := by
+  simp only [sortedTreeItemsPy] at h
+  split at h
+  · cases h
+  · rename_i sorted _
+    split at h
+    · rename_i hall
+      simp only [Except.ok.injEq] at h
+      subst h
+      intro e he
+      exact (inRange_iff e).1 (List.all_eq_true.mp hall e he)
+    · cases h
+
+theorem sorted_eq_u32 (es : List TreeEntry) (nameOrder : Bool) (hm : modesU32 es) :
+    sortedTreeItemsRs es nameOrder = sortedTreeItemsPy es nameOrder := by
+  rw [sorted_eq_old es nameOrder hm]
+  simp only [sortedTreeItemsPy]
+  cases hp : sortedTreeItemsPyOld es nameOrder with
+  | error x => rfl
+  | ok S =>
+    simp only
+    have hall : S.all pyModeInRange = true := by
+      apply List.all_eq_true.mpr
+      intro e he
+      apply (inRange_iff e).2
+      apply hm
+      cases nameOrder with
+      | true =>
+        simp only [sortedTreeItemsPyOld, if_true, Except.ok.injEq] at hp
+        subst hp
+        exact mem_stableSort _ _ _ he
+      | false =>
+        simp only [sortedTreeItemsPyOld, Bool.false_eq_true, if_false, pyKeyAll_ok es hm, Except.ok.injEq] at hp
+        subst hp
+        obtain ⟨p, hp1, hp2⟩ := List.mem_map.mp he
+        have := mem_stableSort _ _ _ hp1
+        obtain ⟨e', he', hk⟩ := List.mem_map.mp this
+        subst hk
+        simp only [keyed] at hp2
+        subst hp2
+        exact he'
+    simp [hall]
+
+/-- name order: exactly equal results on EVERY dictionary (out-of-range modes: `TypeError` in both) -/
+theorem sorted_eq_name_order (es : List TreeEntry) : sortedTreeItemsRs es true = sortedTreeItemsPy es true := by
+  by_cases hm : modesU32 es
+  · exact sorted_eq_u32 es true hm
+  · have e1 : Gen.rsSortModeBits = 32 := rfl
+    simp only [sortedTreeItemsRs, sortedTreeItemsRsG, e1, rsExtractAll_err es hm, sortedTreeItemsPy, sortedTreeItemsPyOld, if_true]
+    have hnot : (stableSort (fun a b => bytesLt a.name b.name) es).all pyModeInRange = false := by
+      apply Bool.eq_false_iff.mpr
+      intro hall
+      apply hm
+      intro e he
+      exact (inRange_iff e).1 (List.all_eq_true.mp hall e (mem_stableSort_of _ _ _ he))
+    simp [hnot]
+
+/-- tree order: equal observable results on EVERY dictionary (out-of-range modes: both fail) -/
+theorem sorted_obs_eq (es : List TreeEntry) (nameOrder : Bool) :
+    obs (sortedTreeItemsRs es nameOrder) = obs (sortedTreeItemsPy es nameOrder) := by
+  cases nameOrder with
+  | true => rw [sorted_eq_name_order]
+  | false =>
+    by_cases hm : modesU32 es
+    · rw [sorted_eq_u32 es false hm]
+    · have e1 : Gen.rsSortModeBits = 32 := rfl
+      simp only [sortedTreeItemsRs, sortedTreeItemsRsG, e1, rsExtractAll_err es hm, sortedTreeItemsPy, sortedTreeItemsPyOld,
+        Bool.false_eq_true, if_false, pyKeyAll_err es hm, obs]
+
 /-! ## bisect_find_sha -/
 
-theorem inSigned32 (x : Int) : inSigned 32 x = true ↔ (-2147483648 ≤ x ∧ x < 2147483648) := by
+theorem inSigned64 (x : Int) : inSigned 64 x = true ↔ (-9223372036854775808 ≤ x ∧ x < 9223372036854775808) := by
   simp [inSigned]
 
 theorem bytesLt_of_cmp {a b : Bytes} :
@@ -945,22 +1041,24 @@ theorem bytesLt_of_cmp {a b : Bytes} :
 
 theorem bisectLoop_eq (unpack : Int → Except Exc Bytes) (sha : Bytes)
     (hun : ∀ i r, unpack i = .ok r → r.length = 20 ∨ r.length = 32) :
-    ∀ (fuel : Nat) (s e : Int), 0 ≤ s → s ≤ 2 ^ 30 → -1 ≤ e → e < 2 ^ 30 →
+    ∀ (fuel : Nat) (s e : Int), 0 ≤ s → s < 2 ^ 63 → -1 ≤ e → e < 2 ^ 63 → (e - s + 1).toNat < fuel →
       bisectLoopRs unpack sha fuel s e = bisectLoopPy unpack sha fuel s e := by
-  have eb : Gen.rsBisectBits = 32 := rfl
+  have eb : Gen.rsBisectBits = 64 := rfl
   have el : Gen.rsIsShaLens = [20, 32] := rfl
   intro fuel
   induction fuel with
-  | zero => intro s e _ _ _ _; rfl
+  | zero => intro s e _ _ _ _ h; omega
   | succ fuel ih =>
-    intro s e hs0 hs1 he0 he1
+    intro s e hs0 hs1 he0 he1 hf
     simp only [bisectLoopRs, bisectLoopPy, eb, el]
     by_cases hle : s ≤ e
     · have hgt : ¬ s > e := by omega
-      have hin : inSigned 32 (s + e) = true := (inSigned32 _).2 (by omega)
-      have hdiv : Int.tdiv (s + e) 2 = (s + e) / 2 := Int.tdiv_eq_ediv_of_nonneg (by omega)
+      have hin0 : inSigned 64 (e - s) = true := (inSigned64 _).2 (by omega)
+      have hdiv : Int.tdiv (e - s) 2 = (e - s) / 2 := Int.tdiv_eq_ediv_of_nonneg (by omega)
       have hfdiv : Int.fdiv (s + e) 2 = (s + e) / 2 := Int.fdiv_eq_ediv_of_nonneg _ (by decide)
-      simp only [hle, hgt, if_true, if_false, hin, not_true_eq_false, hdiv, hfdiv]
+      have hmid : s + (e - s) / 2 = (s + e) / 2 := by omega
+      have hin : inSigned 64 ((s + e) / 2) = true := (inSigned64 _).2 (by omega)
+      simp only [hle, hgt, if_true, if_false, hin0, not_true_eq_false, hdiv, hfdiv, hmid, hin]
       cases hu : unpack ((s + e) / 2) with
       | error x => rfl
       | ok fs =>
@@ -970,13 +1068,25 @@ theorem bisectLoop_eq (unpack : Int → Except Exc Bytes) (sha : Bytes)
         obtain ⟨h1, h2, h3⟩ := @bytesLt_of_cmp fs sha
         cases hc : cmpBytes fs sha with
         | lt =>
-          have hin2 : inSigned 32 ((s + e) / 2 + 1) = true := (inSigned32 _).2 (by omega)
-          simp only [hin2, not_true_eq_false, if_false, (h1 hc).1, if_true]
-          exact ih _ _ (by omega) (by omega) he0 he1
+          simp only [(h1 hc).1, if_true]
+          by_cases hnext : (s + e) / 2 + 1 < 2 ^ 63
+          · have hin2 : inSigned 64 ((s + e) / 2 + 1) = true := (inSigned64 _).2 (by omega)
+            simp only [hin2, not_true_eq_false, if_false]
+            exact ih _ _ (by omega) hnext he0 he1 (by omega)
+          · have hin2 : ¬ inSigned 64 ((s + e) / 2 + 1) = true := by
+              intro h; have := (inSigned64 _).1 h; omega
+            simp only [hin2, not_false_eq_true, if_true]
+            -- checked_add gave None: Python's next iteration sees start > end
+            cases fuel with
+            | zero => omega
+            | succ f =>
+              have : ¬ ((s + e) / 2 + 1 ≤ e) := by omega
+              rw [bisectLoopPy, if_neg this]
+              simp
         | gt =>
-          have hin2 : inSigned 32 ((s + e) / 2 - 1) = true := (inSigned32 _).2 (by omega)
+          have hin2 : inSigned 64 ((s + e) / 2 - 1) = true := (inSigned64 _).2 (by omega)
           simp only [hin2, not_true_eq_false, if_false, (h2 hc).1, (h2 hc).2, if_true, Bool.false_eq_true]
-          exact ih _ _ hs0 hs1 (by omega) (by omega)
+          exact ih _ _ hs0 hs1 (by omega) (by omega) (by omega)
         | eq =>
           simp only [(h3 hc).1, (h3 hc).2, Bool.false_eq_true, if_false]
     · have hgt : s > e := by omega
@@ -1030,59 +1140,34 @@ theorem mergeLoop_eq : ∀ (fuel : Nat) (l1 l2 : List TreeEntry),
         | gt => simp only [(h2 hc).1, (h2 hc).2, if_true, Bool.false_eq_true, if_false, ih]
         | eq => simp only [(h3 hc).1, (h3 hc).2, Bool.false_eq_true, if_false, ih]
 
-/-- the path is empty or does not end with `/` -/
-def pathOk (path : Bytes) : Prop := path = [] ∨ path.getLast? ≠ some 47
+theorem join_eq (path name : Bytes) : rsJoin path name = pyJoin path name := by
+  have e1 : Gen.rsPathSep = Gen.pyPathSep := rfl
+  simp only [rsJoin, pyJoin, e1]
 
-/-- no entry name starts with `/` -/
-def namesRelative (es : List TreeEntry) : Prop := ∀ e ∈ es, e.name.head? ≠ some 47
-
-theorem join_eq {path name : Bytes} (hp : pathOk path) (hn : name.head? ≠ some 47) :
-    rsJoin path name = pyPosixJoin path name := by
-  have e1 : Gen.rsPathSep = 47 := rfl
-  simp only [rsJoin, pyPosixJoin, hn, if_false, e1]
-  cases path with
-  | nil => simp
-  | cons a as =>
-    rcases hp with h | h
-    · cases h
-    · simp [h]
-
-theorem rsTreeEntriesMap_ok (path : Bytes) (hp : pathOk path) : ∀ L : List TreeEntry, modesU32 L → namesRelative L →
-    rsTreeEntriesMap path L = .ok (L.map fun e => ⟨pyPosixJoin path e.name, e.mode, e.hexsha⟩) := by
+theorem rsTreeEntriesMap_ok (path : Bytes) : ∀ L : List TreeEntry, modesU32 L →
+    rsTreeEntriesMap path L = .ok (L.map fun e => ⟨pyJoin path e.name, e.mode, e.hexsha⟩) := by
   have e1 : Gen.rsMergeModeBits = 32 := rfl
   intro L
   induction L with
-  | nil => intro _ _; rfl
+  | nil => intro _; rfl
   | cons e es ih =>
-    intro hm hn
+    intro hm
     have he := hm e (by simp)
     have : ¬ (e.mode < 0 ∨ e.mode ≥ 2 ^ 32) := by omega
-    simp only [rsTreeEntriesMap, e1, this, if_false, ih (fun x hx => hm x (by simp [hx])) (fun x hx => hn x (by simp [hx])),
-      List.map_cons, join_eq hp (hn e (by simp))]
+    simp only [rsTreeEntriesMap, e1, this, if_false, ih (fun x hx => hm x (by simp [hx])), List.map_cons, join_eq]
 
-theorem treeEntries_eq (path : Bytes) (hp : pathOk path) (t : Option (List TreeEntry))
-    (hm : ∀ es, t = some es → modesU32 es) (hn : ∀ es, t = some es → namesRelative es) :
+theorem treeEntries_eq (path : Bytes) (t : Option (List TreeEntry)) :
     rsTreeEntries path t = pyTreeEntries path t := by
   cases t with
   | none => rfl
   | some es =>
-    have hm' := hm es rfl
-    have hn' := hn es rfl
-    have hs := sorted_eq es true hm' (fun h => by cases h)
     cases es with
     | nil => rfl
     | cons e es =>
-      simp only [rsTreeEntries, pyTreeEntries, hs]
-      cases hp2 : sortedTreeItemsPy (e :: es) true with
+      simp only [rsTreeEntries, pyTreeEntries, pyTreeEntriesG, sorted_eq_name_order]
+      cases hp : sortedTreeItemsPy (e :: es) true with
       | error x => rfl
-      | ok L =>
-        simp only
-        have hL : ∀ z ∈ L, z ∈ e :: es := by
-          intro z hz
-          simp only [sortedTreeItemsPy, if_true, Except.ok.injEq] at hp2
-          subst hp2
-          exact mem_stableSort _ _ _ hz
-        exact rsTreeEntriesMap_ok path hp L (fun z hz => hm' z (hL z hz)) (fun z hz => hn' z (hL z hz))
+      | ok L => exact rsTreeEntriesMap_ok path L (sortedPy_ok_modes hp)
 
 /-! ## _is_tree -/
 
@@ -1180,3 +1265,4 @@ theorem rsEmitOps_eq : ∀ ops : List Op, (∀ d, Op.insert d ∈ ops → d ≠ 
     | insert data => simp only [rsEmitOps, emitOps, rsEmitInsert_eq _ data (h data List.mem_cons_self), ih']
 
 end Dulwich.RsPy
+
